@@ -41,7 +41,11 @@ class OptimizeAnalysis:
     def __init__(self, pkg):
         self.pkg = pkg
         self.an = Analysis(pkg)
-        self.fn = pkg.method("Graph", "optimize")
+        self.fn_orig = pkg.method("Graph", "optimize")
+        from .inline import inline_helpers
+        # private helpers that optimize() was split into are inlined; the two chi^2-computing methods keep their role as calls
+        self.fn, self.inlined = inline_helpers(pkg, self.fn_orig, keep=("_calc_chi2_gradient_hessian", "calc_chi2", "_initialize"))
+        self.an.fns["Graph.optimize<inlined>"] = self.fn
         self.findings = []
         self.mod = self.fn._gs_module
         a = self.fn.args
@@ -220,6 +224,12 @@ class OptimizeAnalysis:
             return e.id
         if isinstance(e, ast.Attribute) and isinstance(e.value, ast.Name) and e.value.id in ("self", self.ret_var):
             return "%s.%s" % (e.value.id, e.attr)
+        # <ret>.iteration_results[-1] / [-2]: the most recently / previously appended IterationResult object
+        if isinstance(e, ast.Subscript) and isinstance(e.value, ast.Attribute) and e.value.attr == "iteration_results" and \
+                isinstance(e.value.value, ast.Name) and e.value.value.id == self.ret_var:
+            idx = e.slice
+            if isinstance(idx, ast.UnaryOp) and isinstance(idx.op, ast.USub) and isinstance(idx.operand, ast.Constant):
+                return {1: "$last", 2: "$last2"}.get(idx.operand.value)
         return None
 
     def transfer(self, n, s, label):
@@ -261,9 +271,27 @@ class OptimizeAnalysis:
                     new.add((v, "PREV"))
                 elif t == "INIT":
                     new.add((v, t))
+                elif t == "R_FRESH":
+                    new.add((v, "R_SWEPT"))      # the result object of the iteration whose update produced the current poses
+                elif t == "R_SWEPT":
+                    new.add((v, "R_OLD"))
+                elif t in ("R_NEW", "R_OLD"):
+                    new.add((v, t))
             return s._replace(tags=frozenset(new), pristine=False, sweeps=min(2, s.sweeps + 1), since=0)
         if role is not None and role[0] == "append":
-            return s._replace(appends=min(2, s.appends + 1), since=min(2, s.since + 1))
+            call = None
+            for x in ast.walk(st):
+                if isinstance(x, ast.Call) and isinstance(x.func, ast.Attribute) and x.func.attr == "append":
+                    call = x
+            tags = {(v, t) for v, t in tags if v != "$last2"}
+            tags |= {("$last2", t) for v, t in s.tags if v == "$last"}
+            tags = {(v, t) for v, t in tags if v != "$last"}
+            tags.add(("$last", "R_FRESH"))
+            if call is not None and call.args and isinstance(call.args[0], ast.Name):
+                k = call.args[0].id
+                tags = {(v, t) for v, t in tags if v != k}
+                tags.add((k, "R_FRESH"))
+            return s._replace(tags=frozenset(tags), appends=min(2, s.appends + 1), since=min(2, s.since + 1))
         if kind == "stmt" and isinstance(st, (ast.Assign, ast.AugAssign, ast.AnnAssign)):
             targets = st.targets if isinstance(st, ast.Assign) else [st.target]
             for t in targets:
@@ -277,6 +305,8 @@ class OptimizeAnalysis:
                     src = self.var_key(st.value)
                     if src is not None:
                         tags |= {(k, tg) for v, tg in s.tags if v == src}
+                    elif isinstance(st.value, ast.Call) and unp(st.value.func).endswith("IterationResult"):
+                        tags.add((k, "R_NEW"))
             return s._replace(tags=frozenset(tags), written=frozenset(written))
         if kind == "for" and isinstance(st.target, ast.Name):
             tags = {(v, tg) for v, tg in tags if v != st.target.id}
@@ -436,6 +466,14 @@ class TermEnv:
                 d = unique_reaching_def(oa.cfg, e.id, self.node)
                 if d is not None:
                     return self.ev(d, depth + 1)
+                consts = oa.pkg.module_consts.get(oa.mod, {})
+                if e.id in consts and e.id not in oa.params:
+                    return self.ev(consts[e.id], depth + 1)
+            if isinstance(e, ast.Attribute) and isinstance(e.value, ast.Name) and e.value.id == "self":
+                # class-level constant of Graph
+                k = oa.pkg.lookup("Graph", e.attr)
+                if k is not None and k[0] == "const":
+                    return self.ev(k[1], depth + 1)
             return None
         if isinstance(e, ast.Call) and unp(e.func) in ("np.finfo", "numpy.finfo"):
             return None
